@@ -11,14 +11,7 @@ def add(cid, src, quick, thorough, rule, **kw):
     d.update(kw)
     CHECKS[cid] = d
 
-add("C14", "checks/c14_itoa.c", ["default-plain", "default-asan"], ["default-plain", "default-asan"],
-    "cases = (function, value, base, sign, buffer length) calls of the six integer formatters compared with an independent "
-    "formatter; sweep32 enumerates 32-bit values in blocks of 2^16 (all 2^32 in thorough; 32 boundary blocks + ~256 seed-chosen "
-    "blocks + 32 values of every other block in quick), lensweep runs every buffer length 0..70 on exact-size heap cells, wide64 "
-    "draws boundary-biased 64-bit values; distinct_nontrivial counts distinct non-zero (value,function,base) keys on a 1/4099 "
-    "(sweep), 1/1 (lensweep), 1/16 (wide64) subsample, i.e. a lower bound",
-    exhaustive=dict(quick=False, thorough=True),
-    technique="differential runtime monitor: library formatter vs independent formatter over enumerated/boundary-biased values, exact-size heap buffers under ASan+UBSan, guard bytes in the -O2 build",
-    level_text="exploration by execution: thorough enumerates all 2^32 32-bit values x signed/unsigned x 4 bases on the real code and 10^8 64-bit values; quick a stratified 2x10^7-value sample plus every buffer length 0..70; a universal claim over 64-bit values is sampled, not enumerated",
-    level_note="trusted: the 20-line reference formatter, the compilers' sanitizer runtimes; held means held on the values executed",
-    assumptions=["reference formatter in checks/c14_itoa.c (digits by repeated % and /) is correct", "gcc -O2 / clang -O1 ASan+UBSan builds of the working tree"])
+
+import glob as _glob, os as _os
+for _f in sorted(_glob.glob(_os.path.join(_os.path.dirname(_os.path.abspath(__file__)), "reg", "*.py"))):
+    exec(compile(open(_f).read(), _f, "exec"))
